@@ -115,6 +115,34 @@ func execCase(c core.Case) []string {
 		case "verify":
 			p := parseProof(m)
 			out = append(out, verifyClass(p.Verify(unhx(m["root"]), unhx(m["leaf"]))))
+		case "txhash":
+			out = append(out, hx(toTxs(unhxList(m["txs"])).Hash()))
+		case "txproof":
+			txs := toTxs(unhxList(m["txs"]))
+			i, _ := strconv.Atoi(m["i"])
+			if i >= len(txs) {
+				out = append(out, "panic")
+				break
+			}
+			tp := txs.Proof(i)
+			out = append(out, fmt.Sprintf("%s %s %s", hx(tp.RootHash), hx(tp.Data), showProof(&tp.Proof)))
+		case "txvalidate":
+			tp := types.TxProof{RootHash: unhx(m["root"]), Data: unhx(m["data"]), Proof: parseProof(m)}
+			err := tp.Validate(unhx(m["dh"]))
+			switch {
+			case err == nil:
+				out = append(out, "ok")
+			case strings.Contains(err.Error(), "different data hash"):
+				out = append(out, "err-datahash")
+			case strings.Contains(err.Error(), "index cannot be negative"):
+				out = append(out, "err-index")
+			case strings.Contains(err.Error(), "total must be positive"):
+				out = append(out, "err-total")
+			case strings.Contains(err.Error(), "not internally consistent"):
+				out = append(out, "err-inconsistent")
+			default:
+				out = append(out, "err-other:"+err.Error())
+			}
 		case "new":
 			k, _ := strconv.Atoi(m["psize"])
 			ps = types.NewPartSetFromData(unhx(m["data"]), uint32(k))
@@ -167,6 +195,14 @@ func execCase(c core.Case) []string {
 	return out
 }
 
+func toTxs(l [][]byte) types.Txs {
+	t := make(types.Txs, len(l))
+	for i, b := range l {
+		t[i] = types.Tx(b)
+	}
+	return t
+}
+
 // ---- property oracle on the implementation's outputs ----
 
 func split(data []byte, k int) [][]byte {
@@ -211,6 +247,30 @@ func oracle(c core.Case, out []string) []core.Finding {
 					fs = append(fs, core.Finding{Fingerprint: "partset.complete-reassembles-other-bytes",
 						Desc: "a completed part set reassembles to bytes different from the original data: " + out[i]})
 				}
+			}
+		case "txvalidate":
+			if out[i] != "ok" || m["txs"] == "" {
+				continue
+			}
+			txs := toTxs(unhxList(m["txs"]))
+			if !bytes.Equal(unhx(m["dh"]), txs.Hash()) {
+				continue
+			}
+			idx, _ := strconv.ParseInt(m["pidx"], 10, 64)
+			tot, _ := strconv.ParseInt(m["ptotal"], 10, 64)
+			data := unhx(m["data"])
+			if tot == int64(len(txs)) && idx >= 0 && idx < tot && bytes.Equal(txs[idx], data) {
+				continue
+			}
+			if txs.Index(data) < 0 {
+				fs = append(fs, core.Finding{Fingerprint: "TxProof.Validate.accepts-tx-not-in-block",
+					Desc: fmt.Sprintf("TxProof.Validate accepted tx %s which is not among the block's transactions", hx(data))})
+			} else if tot != int64(len(txs)) {
+				fs = append(fs, core.Finding{Fingerprint: "merkle.Verify.total-not-bound",
+					Desc: fmt.Sprintf("TxProof.Validate accepts a proof stating (index %d, total %d) for a block of %d txs: the stated number of leaves is not bound by the root", idx, tot, len(txs))})
+			} else {
+				fs = append(fs, core.Finding{Fingerprint: "TxProof.Validate.accepts-wrong-index",
+					Desc: fmt.Sprintf("TxProof.Validate accepted tx at index %d of %d where another tx sits", idx, tot)})
 			}
 		case "verify":
 			// `items` carries the genuine tree this root belongs to (ignored by both executors)
@@ -389,6 +449,46 @@ func genMerkle(r *rand.Rand, emit func(core.Case), n int) {
 	}
 }
 
+func genTx(r *rand.Rand, emit func(core.Case), n int) {
+	for c := 0; c < n; c++ {
+		cnt := 1 + r.Intn(9)
+		raw := make([][]byte, cnt)
+		for i := range raw {
+			raw[i] = rbytes(r, 1+r.Intn(3))
+		}
+		txs := toTxs(raw)
+		ops := []string{"txhash txs=" + hxList(raw), "txhash txs=-"}
+		dh := txs.Hash()
+		for v := 0; v < 6; v++ {
+			i := r.Intn(cnt)
+			ops = append(ops, fmt.Sprintf("txproof txs=%s i=%d", hxList(raw), i))
+			tp := txs.Proof(i)
+			p := cloneProof(&tp.Proof)
+			data := []byte(tp.Data)
+			root := []byte(tp.RootHash)
+			d := dh
+			switch r.Intn(7) {
+			case 0:
+			case 1:
+				data = raw[r.Intn(cnt)]
+			case 2:
+				data = rbytes(r, 1+r.Intn(3))
+			case 3:
+				root = rbytes(r, 32)
+				if r.Intn(2) == 0 {
+					d = root
+				}
+			default:
+				o := txs.Proof(r.Intn(cnt)).Proof
+				p, _ = mutateProof(r, p, &o)
+			}
+			ops = append(ops, fmt.Sprintf("txvalidate dh=%s root=%s data=%s pidx=%d ptotal=%d lh=%s aunts=%s txs=%s",
+				hx(d), hx(root), hx(data), p.Index, p.Total, hx(p.LeafHash), hxList(p.Aunts), hxList(raw)))
+		}
+		emit(core.Case{Kind: "txproof", Ops: ops})
+	}
+}
+
 func addOp(idx int, b []byte, p merkle.Proof) string {
 	return fmt.Sprintf("add idx=%d bytes=%s pidx=%d ptotal=%d lh=%s aunts=%s", idx, hx(b), p.Index, p.Total, hx(p.LeafHash), hxList(p.Aunts))
 }
@@ -462,6 +562,7 @@ func main() {
 			}
 			genMerkle(r, emit, n)
 			genPartSet(r, emit, n)
+			genTx(r, emit, n/2)
 		},
 		Exec:   execCase,
 		Oracle: oracle,
